@@ -257,9 +257,10 @@ func runL2(in c09in) (o c09obs) {
 // ---------------------------------------------------------------- L1
 
 type l1env struct {
-	ls     *lib.Livesim
-	assets map[string]*lib.TLAsset
-	segDur map[string]int64 // SegmentDurMS of the loaded asset (hook), 0 if the hook is unavailable
+	segDurDiff []string
+	ls         *lib.Livesim
+	assets     map[string]*lib.TLAsset
+	segDur     map[string]int64 // SegmentDurMS of the loaded asset (hook), 0 if the hook is unavailable
 }
 
 func atoMSInt(ato string) int64 {
@@ -517,7 +518,12 @@ func oracle(c *lib.Ctx, id string, in c09in, o c09obs) {
 	if inDomain {
 		for k, ch := range o.Chunks {
 			if int64(ch.span())*cden >= cnum+int64(md)*cden {
-				fail("chunk-span", fmt.Sprintf("chunk %d spans %d ticks, chunk period %d/%d ticks, longest sample %d", k, ch.span(), cnum, cden, md))
+				key := "chunk-span"
+				if in.Kind == "l1" && o.AtoMSInt != o.AtoMSChk && int64(ch.span())*1000 < (o.SegDurMS-o.AtoMSInt)*o.TS+int64(md)*1000 {
+					// within the bound for int(ato*1000) as the code truncates it, outside it for the advertised ato
+					key = "chunk-span:ato-truncated"
+				}
+				fail(key, fmt.Sprintf("chunk %d spans %d ticks, chunk period %d/%d ticks, longest sample %d", k, ch.span(), cnum, cden, md))
 			}
 		}
 	}
@@ -748,6 +754,7 @@ func (e *l1env) genL1(rng *rand.Rand, c *lib.Ctx) l1plan {
 		{"testpic_2s", 2000, []string{"1.96", "1.9", "1.75", "1.5", "1.25", "1", "0.5", "0.25", "0.04"}},
 		{"testpic_8s", 8000, []string{"7.96", "7", "6", "4", "1", "0.5"}},
 		{"testpic_6s", 6000, []string{"5.9", "5", "4.5", "3", "0.75"}},
+		{"WAVE/vectors/cfhd_sets/14.985_29.97_59.94/t1/2022-10-17", 2002, []string{"1.96", "1.5", "1.001", "0.5"}}, // 29.97 fps: SegmentDurMS 2002
 	}
 	chunkdurs := []string{"0.5", "0.1", "1", "0.04", "2"}
 	nSeg := 3
@@ -897,6 +904,9 @@ func runC09(c *lib.Ctx) error {
 	if c.Replay != "" {
 		return replayC09(c, env)
 	}
+	for _, d := range env.segDurDiff {
+		c.Fail("segdur", "segment-duration", d, map[string]string{"kind": "asset"})
+	}
 	rng := rand.New(rand.NewSource(c.Seed))
 	nL2 := 2600
 	if c.Thorough() {
@@ -1019,6 +1029,14 @@ func newEnv() (*l1env, error) {
 		e.assets[a.Path] = a
 		sd, _, _ := app.VerifC09AssetInfo(ls.Srv, a.Path)
 		e.segDur[a.Path] = int64(sd)
+		// the harness's own statement: rounded mean segment duration of the reference representation
+		if ref := a.Ref(); ref != nil && len(ref.Segs) > 0 {
+			den := ref.Timescale * int64(len(ref.Segs))
+			own := (2*ref.Duration()*1000 + den) / (2 * den)
+			if own != int64(sd) {
+				e.segDurDiff = append(e.segDurDiff, fmt.Sprintf("%s: SegmentDurMS %d, rounded mean segment duration of the reference representation %d", a.Path, sd, own))
+			}
+		}
 	}
 	return e, nil
 }
